@@ -4,25 +4,92 @@ import AmcVerif.Prim.Base
 `SRep N kMax t` is the representation invariant of the size/capacity words of a `SmallVectorBase` with inline
 capacity `N` (`N < kMax`): inline and partially filled (`_capa` = size, `_size` = N), inline and exactly full
 (`_capa` = N, `_size` = kMax), or heap state (`_size ≤ _capa`).  `SmallLaws ops N` states how each generated
-member acts on the *decoded view* (small?, size, capacity).  The generated definitions are shown to satisfy these
-laws in `Bridge/` (one instance per size type, regenerated and re-checked on every run). -/
+member acts on the *decoded view* (small?, size, capacity) and which element / allocator effects it emits.  The
+generated definitions are shown to satisfy these laws in `Bridge/` (one instance per size type, regenerated and
+re-checked on every run); everything above is proved from the laws only, so a harmless rewrite of the members keeps
+the theorems, and a rewrite that breaks a law breaks exactly the `Bridge` lemma of the member concerned. -/
 namespace AmcVerif
-
-structure View where
-  small : Bool
-  size : Nat
-  cap : Nat
-deriving DecidableEq, Repr
 
 /-- representation invariant of SmallVectorBase words -/
 def SRep (N kMax : Nat) (t : VB) : Prop :=
   (t.capa < N ∧ t.size = N) ∨ (t.capa = N ∧ t.size = kMax) ∨ (t.size ≤ t.capa ∧ t.capa ≤ kMax)
 
-/-- the words decode to: small?, size, capacity -/
-def sview (ops : BaseOps) (t : VB) : View :=
-  ⟨match ops.begin t with | .inl _ => true | _ => false, ops.size t, ops.capacity t⟩
+/-- growth target of `SafeNextCapacity`: max(⌈1.5·old⌉, n) limited to the size_type maximum -/
+def nextCapOf (kMax old n : Nat) : Nat := Nat.min (Nat.max ((3 * old + 1) / 2) n) kMax
 
-/-- heap-state predicate on raw words -/
-def SHeap (t : VB) : Prop := t.size ≤ t.capa
+def growEffs (small : Bool) (t : VB) (sz cap r fresh : Nat) : List Eff :=
+  if small then
+    [Eff.alloc r (PtrV.blk (fresh + 0)), Eff.relocN (PtrV.inl 0) sz (PtrV.blk (fresh + 0)), Eff.setDyn 0]
+  else [Eff.realloc t.dyn cap r sz (PtrV.blk (fresh + 0)), Eff.setDyn 0]
+
+structure SmallLaws (ops : BaseOps) (N : Nat) : Prop where
+  kmax : N < ops.kMax
+  npos : 0 < N
+  bounds : ∀ t, SRep N ops.kMax t →
+    ops.size t ≤ ops.capacity t ∧ ops.capacity t ≤ ops.kMax ∧ (ops.isSmall t = true → ops.capacity t = N)
+  begin_small : ∀ t, ops.begin t = if ops.isSmall t then PtrV.inl 0 else t.dyn
+  ctor : SRep N ops.kMax (ops.ctor N) ∧ ops.size (ops.ctor N) = 0 ∧ ops.capacity (ops.ctor N) = N
+    ∧ ops.isSmall (ops.ctor N) = true
+  incr : ∀ t, SRep N ops.kMax t → ops.size t < ops.capacity t →
+    SRep N ops.kMax (ops.incrSize t) ∧ ops.size (ops.incrSize t) = ops.size t + 1
+      ∧ ops.capacity (ops.incrSize t) = ops.capacity t ∧ ops.isSmall (ops.incrSize t) = ops.isSmall t
+      ∧ (ops.incrSize t).dyn = t.dyn
+  decr : ∀ t, SRep N ops.kMax t → 0 < ops.size t →
+    SRep N ops.kMax (ops.decrSize t) ∧ ops.size (ops.decrSize t) + 1 = ops.size t
+      ∧ ops.capacity (ops.decrSize t) = ops.capacity t ∧ ops.isSmall (ops.decrSize t) = ops.isSmall t
+      ∧ (ops.decrSize t).dyn = t.dyn
+  setSize : ∀ t, SRep N ops.kMax t → ∀ s, s ≤ ops.capacity t →
+    SRep N ops.kMax (ops.setSize t s) ∧ ops.size (ops.setSize t s) = s
+      ∧ ops.capacity (ops.setSize t s) = ops.capacity t ∧ ops.isSmall (ops.setSize t s) = ops.isSmall t
+      ∧ (ops.setSize t s).dyn = t.dyn
+  growErr : ∀ t minSize exact fresh e, ops.safeNext (ops.capacity t) minSize exact = .error e →
+    ops.grow t minSize exact fresh = .error e
+  growOk : ∀ t, SRep N ops.kMax t → ∀ minSize exact fresh r, ops.safeNext (ops.capacity t) minSize exact = .ok r →
+    ops.grow t minSize exact fresh = .ok (⟨r, ops.size t, PtrV.blk (fresh + 0)⟩,
+      growEffs (ops.isSmall t) t (ops.size t) (ops.capacity t) r fresh)
+  grownRep : ∀ sz r d, sz ≤ r → r ≤ ops.kMax →
+    SRep N ops.kMax ⟨r, sz, d⟩ ∧ ops.size ⟨r, sz, d⟩ = sz ∧ ops.capacity ⟨r, sz, d⟩ = r ∧ ops.isSmall ⟨r, sz, d⟩ = false
+  safeExact : ∀ old n, n ≤ ops.kMax → ops.safeNext old n true = .ok n
+  safeGrow : ∀ old n, n ≤ ops.kMax → old < 2 ^ 62 → ops.safeNext old n false = .ok (nextCapOf ops.kMax old n)
+  safeOverflow : ∀ old n, ops.kMax < n → ops.safeNext old n false = .error .overflow
+  moveAssignRep : ∀ t o, SRep N ops.kMax t → SRep N ops.kMax o →
+    SRep N ops.kMax (ops.moveAssign t o N).1 ∧ SRep N ops.kMax (ops.moveAssign t o N).2.1
+      ∧ ops.size (ops.moveAssign t o N).1 = ops.size o ∧ ops.size (ops.moveAssign t o N).2.1 = 0
+      ∧ ops.isSmall (ops.moveAssign t o N).2.1 = true ∧ ops.capacity (ops.moveAssign t o N).2.1 = N
+  moveAssignSteal : ∀ t o, SRep N ops.kMax t → SRep N ops.kMax o → ops.isSmall o = false →
+    ops.isSmall (ops.moveAssign t o N).1 = false ∧ ops.capacity (ops.moveAssign t o N).1 = ops.capacity o
+      ∧ (ops.moveAssign t o N).1.dyn = o.dyn
+  moveAssignInline : ∀ t o, SRep N ops.kMax t → SRep N ops.kMax o → ops.isSmall o = true → ops.isSmall t = true →
+    ops.isSmall (ops.moveAssign t o N).1 = true ∧ ops.capacity (ops.moveAssign t o N).1 = N
+      ∧ (ops.moveAssign t o N).2.2 = [Eff.moveN (PtrV.inl 1) (ops.size o) (PtrV.inl 0) (ops.size t)]
+  moveAssignIntoHeap : ∀ t o, SRep N ops.kMax t → SRep N ops.kMax o → ops.isSmall o = true → ops.isSmall t = false →
+    (ops.size o ≤ ops.capacity t →
+        ops.isSmall (ops.moveAssign t o N).1 = false ∧ ops.capacity (ops.moveAssign t o N).1 = ops.capacity t
+          ∧ (ops.moveAssign t o N).1.dyn = t.dyn)
+    ∧ (ops.capacity t < ops.size o →
+        ops.isSmall (ops.moveAssign t o N).1 = true ∧ ops.capacity (ops.moveAssign t o N).1 = N)
+  moveConstruct : ∀ t o, SRep N ops.kMax o →
+    SRep N ops.kMax (ops.moveConstruct t o N).1 ∧ SRep N ops.kMax (ops.moveConstruct t o N).2.1
+      ∧ ops.size (ops.moveConstruct t o N).1 = ops.size o ∧ ops.size (ops.moveConstruct t o N).2.1 = 0
+      ∧ ops.isSmall (ops.moveConstruct t o N).2.1 = true ∧ ops.capacity (ops.moveConstruct t o N).2.1 = N
+      ∧ ops.isSmall (ops.moveConstruct t o N).1 = ops.isSmall o
+      ∧ ops.capacity (ops.moveConstruct t o N).1 = ops.capacity o
+      ∧ (ops.isSmall o = false → (ops.moveConstruct t o N).1.dyn = o.dyn)
+  swapImpl : ∀ t o, SRep N ops.kMax t → SRep N ops.kMax o →
+    SRep N ops.kMax (ops.swapImpl t o).1 ∧ SRep N ops.kMax (ops.swapImpl t o).2.1
+      ∧ ops.size (ops.swapImpl t o).1 = ops.size o ∧ ops.size (ops.swapImpl t o).2.1 = ops.size t
+      ∧ ops.capacity (ops.swapImpl t o).1 = ops.capacity o ∧ ops.capacity (ops.swapImpl t o).2.1 = ops.capacity t
+      ∧ ops.isSmall (ops.swapImpl t o).1 = ops.isSmall o ∧ ops.isSmall (ops.swapImpl t o).2.1 = ops.isSmall t
+      ∧ (ops.isSmall o = false → (ops.swapImpl t o).1.dyn = o.dyn)
+      ∧ (ops.isSmall t = false → (ops.swapImpl t o).2.1.dyn = t.dyn)
+  shrinkImpl : ∀ t, SRep N ops.kMax t → ∀ fresh,
+    SRep N ops.kMax (ops.shrinkImpl t N fresh).1 ∧ ops.size (ops.shrinkImpl t N fresh).1 = ops.size t
+      ∧ (ops.isSmall t = true → (ops.shrinkImpl t N fresh).1.capa = t.capa ∧ (ops.shrinkImpl t N fresh).1.size = t.size
+            ∧ (ops.shrinkImpl t N fresh).1.dyn = t.dyn ∧ (ops.shrinkImpl t N fresh).2 = [])
+      ∧ (ops.isSmall t = false → ops.size t ≤ N →
+            ops.isSmall (ops.shrinkImpl t N fresh).1 = true ∧ ops.capacity (ops.shrinkImpl t N fresh).1 = N)
+      ∧ (ops.isSmall t = false → N < ops.size t →
+            ops.isSmall (ops.shrinkImpl t N fresh).1 = false ∧ ops.capacity (ops.shrinkImpl t N fresh).1 = ops.size t)
+  dtor : ∀ t, (ops.dtor t).2 = if ops.isSmall t then [] else [Eff.dealloc t.dyn (ops.capacity t)]
 
 end AmcVerif
